@@ -70,6 +70,8 @@ type KPlan struct {
 	Faults    []kern.ReqFault `json:"faults,omitempty"`
 	Recv      []KRecv         `json:"recv,omitempty"`
 	SendErr   []int           `json:"send_errno,omitempty"`
+	CloseErr  []int           `json:"close_errno,omitempty"`     // errno reported by the n-th close(2) on the socket
+	RecvHard  []int           `json:"recv_enobufs_at,omitempty"` // receive calls (ordinal over the run) that fail hard with ENOBUFS
 	Tape      []uint16        `json:"tape,omitempty"`
 	Strategy  int             `json:"strategy,omitempty"`
 	Auto      uint32          `json:"auto_density,omitempty"` // statement-level pre-emption in the concurrent phase
@@ -94,6 +96,14 @@ func (p *KPlan) Valid() bool {
 			if f.Spoof != 0 && !(p.Scenario == 8 && p.Transport == 1) {
 				return false // a forged reply ahead of the real one needs the real NetlinkClient's sender check
 			}
+		}
+	}
+	if len(p.RecvHard) > 0 && p.Scenario != 8 {
+		return false
+	}
+	for _, n := range p.RecvHard {
+		if n < 0 {
+			return false
 		}
 	}
 	if p.Scenario == 17 {
@@ -328,6 +338,13 @@ func GenKPlanC08(r *core.Rng) *KPlan {
 	if r.Chance(1, 6) {
 		genSendErr(r, 3*n+4, p)
 	}
+	if r.Chance(1, 8) {
+		// hard receive errors (ENOBUFS) at a few receive calls: inside a multi-part
+		// reply they land after the ACK stage
+		for k := r.Range(1, 3); k > 0; k-- {
+			p.RecvHard = append(p.RecvHard, r.Intn(6*n+4))
+		}
+	}
 	if r.Chance(1, 10) {
 		// the ACK datagram is cut short (0..19 bytes): whatever the verdict was, it cannot be read
 		for i := range p.Faults {
@@ -391,6 +408,27 @@ func GenKPlanC16(r *core.Rng) *KPlan {
 		default:
 			p.Ops = append(p.Ops, KOp{K: kFromWire, A: uint32(core.Pick(r, r.Intn(65), r.Intn(65), 31, 32, 33, 36, 40, 43, 44, 45, 48, 64, 96)), B: r.U32()})
 		}
+	}
+	if r.Chance(1, 4) {
+		// two independent clients, each driven by its own task, issue setters at the same time
+		for t := 0; t < 2; t++ {
+			var ops []KOp
+			for k := r.Range(1, 4); k > 0; k-- {
+				op := genSetter(r)
+				if op.K == kSetImmutable || op.K == kSetPID {
+					op = KOp{K: kSetRateLimit, A: r.U32()}
+				}
+				op.NoWait = r.Chance(1, 2)
+				ops = append(ops, op)
+			}
+			p.Tasks = append(p.Tasks, ops)
+		}
+		p.Auto = core.Pick(r, uint32(0), 1, 1, 2, 3)
+		p.AutoSalt = r.U32()
+		for i := 0; i < 120; i++ {
+			p.Tape = append(p.Tape, uint16(r.Intn(1<<16)))
+		}
+		p.Strategy = r.Intn(2)
 	}
 	for i := 0; i < n+4 && i < 40; i++ {
 		var f kern.ReqFault
@@ -473,6 +511,12 @@ func GenKPlanC17(r *core.Rng) *KPlan {
 	genFaults(r, 2*n+8, p, errnoPct, unsolPct, 0, 0)
 	if r.Chance(1, 4) {
 		genSendErr(r, 2*n+4, p)
+	}
+	if r.Chance(1, 5) {
+		// close(2) reports an error although the descriptor is gone (EINTR, EIO)
+		for i := 0; i < 4; i++ {
+			p.CloseErr = append(p.CloseErr, core.Pick(r, 4, 4, 5, 0))
+		}
 	}
 	if r.Chance(1, 3) {
 		genRecv(r, 6*n, p, 20)
